@@ -62,3 +62,19 @@ if a in s:
     s = s[:s.index(a) + len(a)] + "\n" + t2 + "\n" + s[s.index(b):]
     open(p, "w").write(s)
 print(len(rows), "seeded rows")
+# findings overview
+frows = []
+for ff in sorted(glob.glob(os.path.join(ROOT, "findings", "*.json"))):
+    for f in json.load(open(ff)):
+        st = f.get("status", "?")
+        if st == "fixed":
+            st = "fixed in /repo " + str(f.get("commit", "?"))
+        what = (f.get("what") or "").replace("|", "/").replace("\n", " ")
+        frows.append("| %s | %s | %s |" % (f.get("id", "?"), st, what[:330] + ("…" if len(what) > 330 else "")))
+t3 = "| finding | status | what fails (abridged; witness and signature in findings/<ID>.json) |\n|---|---|---|\n" + "\n".join(frows)
+s2 = open(p).read()
+a, b = "<!-- FINDINGS-TABLE-BEGIN -->", "<!-- FINDINGS-TABLE-END -->"
+if a in s2:
+    s2 = s2[:s2.index(a) + len(a)] + "\n" + t3 + "\n" + s2[s2.index(b):]
+    open(p, "w").write(s2)
+print(len(frows), "findings")
